@@ -17,7 +17,11 @@ from ..core import InfraError, shrink
 
 NAN = float("nan")
 ENCS = ("rle", "dict", "sparse", "const", "func")
-FUNCS = ("double", "upper", "not", "id")
+FUNCS = ("double", "upper", "not", "id")  # dtype-preserving: also run on the Lean model
+# dtype-changing functions on the stored values (int -> float, narrower -> wider text, int -> text,
+# bool -> int): the expansion must follow the dtype of the *mapped* values.  Oracle only.
+DTYPE_FUNCS = ("halve", "suffix", "tostr", "toint")
+MODEL_MAX_LEN = 1500  # the list model is quadratic in places; longer inputs are oracle-only
 
 
 # --------------------------------------------------------------------------- values
@@ -95,6 +99,14 @@ def py_f(f, x):
         return x.upper()
     if f == "not":
         return not x
+    if f == "halve":
+        return x / 2
+    if f == "suffix":
+        return x + "-x"
+    if f == "tostr":
+        return str(x)
+    if f == "toint":
+        return int(x)
     return x
 
 
@@ -115,6 +127,14 @@ def np_f(f, arr):
         return numpy.char.upper(arr)
     if f == "not":
         return numpy.logical_not(arr)
+    if f == "halve":
+        return arr / 2
+    if f == "suffix":
+        return numpy.char.add(arr, "-x")
+    if f == "tostr":
+        return arr.astype(str)
+    if f == "toint":
+        return arr.astype(numpy.int64)
     return arr.copy()
 
 
@@ -128,7 +148,39 @@ def f_applicable(f, values):
         return ks <= {str} and all(v is None or v.isascii() for v in values)
     if f == "not":
         return ks <= {bool}
+    if f == "halve":
+        return ks <= {int, float} and all(v is None or isinstance(v, float) or abs(v) <= 2**53 for v in values)
+    if f == "suffix":
+        return ks <= {str}
+    if f == "tostr":
+        return ks <= {int}
+    if f == "toint":
+        return ks <= {bool}
     return False
+
+
+def spec_values(spec):
+    """Deterministic long inputs in compact form (so that replays stay small and shrink on `n`):
+    `distinct`: a permutation of n distinct values followed by three repeats; `run`: one value n
+    times, then another."""
+    n, kind = spec["n"], spec["kind"]
+    mk = (lambda i: i + 1) if kind == "int" else (lambda i: "v%d" % i)
+    if spec["shape"] == "distinct":
+        vs = [mk((i * 7919 + 13) % n) for i in range(n)]
+        return vs + vs[:3]
+    return [mk(0)] * n + [mk(1)]
+
+
+def values_of(case):
+    if "spec" in case:
+        return spec_values(case["spec"])
+    return case["values"]
+
+
+def has_model(case):
+    if case.get("f") in DTYPE_FUNCS:
+        return False
+    return case["enc"] in ("const", "func") or len(values_of(case)) <= MODEL_MAX_LEN
 
 
 def fresh(v):
@@ -158,15 +210,15 @@ def run_impl(case):
         with warnings.catch_warnings():
             warnings.simplefilter("ignore")
             if enc == "rle":
-                col = schema.RLEColumn(name="c", values=[fresh(v) for v in case["values"]])
+                col = schema.RLEColumn(name="c", values=[fresh(v) for v in values_of(case)])
                 out["values"], out["vkind"] = canon(col.values), kind_of(col.values)
                 out["lengths"] = [int(x) for x in col.lengths]
             elif enc == "dict":
-                col = schema.DictionaryColumn(name="c", values=[fresh(v) for v in case["values"]])
+                col = schema.DictionaryColumn(name="c", values=[fresh(v) for v in values_of(case)])
                 out["values"], out["vkind"] = canon(col.values), kind_of(col.values)
                 out["codes"] = [int(x) for x in col.encoding]
             elif enc == "sparse":
-                col = schema.SparseColumn(name="c", values=[fresh(v) for v in case["values"]], default_value=fresh(case["default"]))
+                col = schema.SparseColumn(name="c", values=[fresh(v) for v in values_of(case)], default_value=fresh(case["default"]))
                 out["values"], out["vkind"] = canon(col.values), kind_of(col.values)
                 out["indices"] = [int(x) for x in col.indices]
                 out["total"] = int(col.total_length)
@@ -216,9 +268,9 @@ def run_impl(case):
 def model_line(case):
     enc, f = case["enc"], case.get("f")
     if enc in ("rle", "dict"):
-        return "C09 %s%s " % (enc, "_map" if f else "") + wire.line(*([f] if f else []), list(case["values"]))
+        return "C09 %s%s " % (enc, "_map" if f else "") + wire.line(*([f] if f else []), list(values_of(case)))
     if enc == "sparse":
-        return "C09 sparse%s " % ("_map" if f else "") + wire.line(*([f] if f else []), list(case["values"]), case["default"])
+        return "C09 sparse%s " % ("_map" if f else "") + wire.line(*([f] if f else []), list(values_of(case)), case["default"])
     if enc == "const":
         return "C09 const%s " % ("_map" if f else "") + wire.line(*([f] if f else []), case["value"], case["length"])
     return "C09 func " + wire.line(case["value"], case["length"])
@@ -285,7 +337,7 @@ def same_obs(impl, model):
 def original(case):
     if case["enc"] in ("const", "func"):
         return [case["value"]] * case["length"]
-    return list(case["values"])
+    return list(values_of(case))
 
 
 def seq_reproduces(xs, ys, default=None):
@@ -326,15 +378,18 @@ def oracle(case, out):
                     return "stored form: adjacent runs hold the same value"
         elif enc == "dict":
             vs, cs = out["values"], out["codes"]
-            for i in range(len(vs)):
-                for j in range(i + 1, len(vs)):
-                    if py_eq(vs[i], vs[j]):
-                        return "stored form: dictionary entries are not unique"
+            seen = set()
+            for v in vs:
+                k = "nan" if is_nan(v) else (family(v), v)  # hash-equal exactly when py_eq
+                if k in seen:
+                    return "stored form: dictionary entries are not unique"
+                seen.add(k)
             if len(cs) != len(xs):
                 return "stored form: number of codes differs from the input length :: %d codes, %d elements" % (len(cs), len(xs))
             for i, c in enumerate(cs):
-                if not (0 <= c < len(vs)):
-                    return "stored form: a code does not index the dictionary"
+                # codes are positions 0..len(values)-1; a negative code would index from the end
+                if not (isinstance(c, int) and 0 <= c <= len(vs) - 1):
+                    return "stored form: a code does not index the dictionary :: code %r at element %d, %d entries" % (c, i, len(vs))
                 if not reproduces(xs[i], vs[c]):
                     return "stored form: a code indexes another entry than its element"
         elif enc == "sparse":
@@ -364,7 +419,7 @@ def oracle(case, out):
             # some element is represented by the default: the statement is only meaningful for
             # functions that fix the default (the stored form does not contain it)
             fd = py_f(f, dv) if f_applicable(f, [dv]) else object()
-            if not (type(fd) is type(dv) and py_eq(fd, dv)):
+            if not py_eq(fd, dv):
                 return None
     want = [py_f(f, x) for x in xs]
     r = seq_reproduces(want, out["mat"], [case["default"]] if enc == "sparse" else None)
@@ -399,15 +454,23 @@ def valid_case(c):
     if not isinstance(c, dict) or c.get("enc") not in ENCS:
         return False
     f = c.get("f")
-    if f is not None and (f not in FUNCS or c["enc"] == "func"):
+    if f is not None and (f not in FUNCS + DTYPE_FUNCS or c["enc"] == "func"):
         return False
     if c["enc"] in ("const", "func"):
-        if not (isinstance(c.get("length"), int) and not isinstance(c.get("length"), bool) and 0 <= c["length"] <= 5000):
+        if not (isinstance(c.get("length"), int) and not isinstance(c.get("length"), bool) and 0 <= c["length"] <= 200000):
             return False
         if "value" not in c or not scalar_ok(c["value"]):
             return False
         return f is None or f_applicable(f, [c["value"]])
-    vs = c.get("values")
+    if "spec" in c:
+        sp = c["spec"]
+        if "values" in c or not isinstance(sp, dict) or sp.get("shape") not in ("distinct", "run") \
+                or sp.get("kind") not in ("int", "text") or not isinstance(sp.get("n"), int) \
+                or isinstance(sp.get("n"), bool) or not (1 <= sp["n"] <= 200000) or set(sp) != {"shape", "kind", "n"}:
+            return False
+        vs = spec_values(sp)
+    else:
+        vs = c.get("values")
     if not isinstance(vs, list) or not all(scalar_ok(v) for v in vs) or not homogeneous(vs):
         return False
     if c["enc"] == "sparse" and ("default" not in c or not scalar_ok(c["default"])):
@@ -422,6 +485,8 @@ def is_big_int_float_default(case, failure=None):
     """C09-K01: sparse column of integers beyond 2**53 with a float default (numpy promotes
     int64 with float64 to float64, which rounds such integers)."""
     if case.get("enc") != "sparse" or not isinstance(case.get("default"), float):
+        return False
+    if "spec" in case or not isinstance(case.get("values"), list):
         return False
     if not any(isinstance(v, int) and not isinstance(v, bool) and abs(v) > 2**53 for v in case["values"]):
         return False
@@ -441,15 +506,19 @@ def is_big_int_float_default(case, failure=None):
 
 
 def evaluate(ctx, cases):
-    lines = [model_line(c) for c in cases]
-    mouts = ctx.model.batch(lines)
+    with_model = [has_model(c) for c in cases]
+    it = iter(ctx.model.batch([model_line(c) for c, w in zip(cases, with_model) if w]))
+    mouts = [next(it) if w else None for w in with_model]
     for c, mo in zip(cases, mouts):
         out = run_impl(c)
         xs = original(c)
         nontrivial = len(xs) >= 2
         ctx.case(c, nontrivial)
         ctx.hit("enc:" + c["enc"] + (":map:" + c["f"] if c.get("f") else ""))
-        ctx.hit("len:%s" % (len(xs) if len(xs) < 6 else "6-20" if len(xs) <= 20 else "21+"))
+        ctx.hit("len:%s" % (len(xs) if len(xs) < 6 else "6-20" if len(xs) <= 20 else "21-120" if len(xs) <= 120
+                            else "121-300" if len(xs) <= 300 else "301-30000" if len(xs) <= 30000 else "30001+"))
+        if "spec" in c:
+            ctx.hit("spec:%s:%s:%d" % (c["spec"]["shape"], c["spec"]["kind"], c["spec"]["n"]))
         ks = sorted({type(v).__name__ for v in xs}) or ["empty"]
         ctx.hit("kind:" + "+".join(ks))
         if c["enc"] == "sparse":
@@ -458,10 +527,12 @@ def evaluate(ctx, cases):
         if "raised" in out:
             ctx.hit("raised:" + out["raised"])
         clause = oracle(c, out)
-        m = model_out(c, mo)
+        if mo is None:
+            ctx.hit("oracle-only")
+        m = model_out(c, mo) if mo is not None else None
         # the model is proved lossless: its own answer must satisfy the same oracle, otherwise the
         # driver glue / wire / this harness is broken (never a VIOLATION)
-        if "raised" not in m and not is_big_int_float_default(c):
+        if m is not None and "raised" not in m and not is_big_int_float_default(c):
             m2 = dict(m)
             if "values" not in m2 and c.get("f") is None and c["enc"] != "func":
                 raise InfraError("model output lacks the stored form for %r" % (c,))
@@ -477,12 +548,14 @@ def evaluate(ctx, cases):
                 except InfraError:
                     return False
 
-            c_min = shrink(c, still) if not ctx.replaying else c
+            # long inputs: each attempt costs a full encode / expand, keep the search short
+            budget = 300 if len(xs) <= 2000 else 40
+            c_min = shrink(c, still, budget=budget) if not ctx.replaying else c
             o2 = run_impl(c_min)
             full = oracle(c_min, o2) or clause
             ctx.fail(c_min, _norm(full), impl=o2, model=m if c_min is c else None,
                      detail=full.split(" :: ")[1] if " :: " in full else None)
-        elif not same_obs(out, m):
+        elif m is not None and not same_obs(out, m):
             ctx.disagree(c, out, m)
 
 
@@ -512,6 +585,9 @@ DEFAULTS = {
     "text+null": (None, 0, "", "abc", "a"),
 }
 
+FUNC2_OF = {"int": ("halve", "tostr"), "float": ("halve",), "float2": ("halve",), "text": ("suffix",), "text2": ("suffix",),
+            "bool+null": ("toint",), "int+null": ("halve", "tostr"), "float+null": ("halve",), "text+null": ("suffix",)}
+
 FUNC_OF = {"int": "double", "float": "double", "float2": "double", "text": "upper", "text2": "upper",
            "bool+null": "not", "int+null": "double", "float+null": "double", "text+null": "upper"}
 
@@ -527,8 +603,7 @@ def exhaustive_cases(nmax, nmax_map):
                 yield {"enc": "dict", "values": vs}
                 for d in DEFAULTS[name]:
                     yield {"enc": "sparse", "values": vs, "default": d}
-                if n <= nmax_map:
-                    f = FUNC_OF[name]
+                for f in ((FUNC_OF[name],) + FUNC2_OF[name]) if n <= nmax_map else ():
                     if f_applicable(f, vs):
                         yield {"enc": "rle", "values": vs, "f": f}
                         if None not in vs or len(vs) < 2:
@@ -540,7 +615,7 @@ def exhaustive_cases(nmax, nmax_map):
         for n in (0, 1, 2, 3, 5, 10):
             yield {"enc": "const", "value": v, "length": n}
             yield {"enc": "func", "value": v, "length": n}
-            for f in ("double", "upper", "not"):
+            for f in ("double", "upper", "not") + DTYPE_FUNCS:
                 if v is not None and f_applicable(f, [v]):
                     yield {"enc": "const", "value": v, "length": n, "f": f}
 
@@ -595,6 +670,39 @@ def gen_default(rng, kind, values):
     return rng.choice([0, 1, 0.0, 1.0])
 
 
+RANDOM_FUNCS = {"int": ("double", "halve", "tostr"), "float": ("double", "halve"), "text": ("upper", "suffix"),
+                "bool": ("not", "toint")}
+
+# sizes at and around the capacities of 8- and 16-bit signed / unsigned integers: a stored index array
+# (dictionary codes, sparse indices, run lengths) narrowed to a "sufficient" integer type fails here
+SMALL_BOUNDS = (127, 128, 129, 255, 256, 257)
+LARGE_BOUNDS = (32767, 32768, 32769, 65535, 65536, 65537)
+
+
+def boundary_cases(large=True):
+    for kind in ("int", "text"):
+        for n in SMALL_BOUNDS:
+            d = {"shape": "distinct", "kind": kind, "n": n}
+            yield {"enc": "dict", "spec": d}
+            yield {"enc": "dict", "spec": d, "f": "id"}
+            yield {"enc": "dict", "spec": d, "f": "halve" if kind == "int" else "suffix"}
+            yield {"enc": "rle", "spec": d}
+            yield {"enc": "rle", "spec": d, "f": "tostr" if kind == "int" else "suffix"}
+            yield {"enc": "rle", "spec": {"shape": "run", "kind": kind, "n": n}}
+            for dv in (None, 0, ""):
+                yield {"enc": "sparse", "spec": d, "default": dv}
+        for n in LARGE_BOUNDS if large else ():
+            d = {"shape": "distinct", "kind": kind, "n": n}
+            yield {"enc": "dict", "spec": d}
+            if kind == "int":
+                yield {"enc": "rle", "spec": d}
+                yield {"enc": "rle", "spec": {"shape": "run", "kind": kind, "n": n}}
+                yield {"enc": "sparse", "spec": d, "default": None}
+    for n in SMALL_BOUNDS + ((32767, 32768, 65535, 65536) if large else ()):
+        yield {"enc": "const", "value": 7, "length": n}
+        yield {"enc": "func", "value": "ab", "length": n}
+
+
 def random_case(ctx, big=False):
     rng = ctx.rng
     kind = rng.choice(["int", "int", "float", "float", "text", "text", "bool"])
@@ -603,7 +711,7 @@ def random_case(ctx, big=False):
         v = None if rng.random() < 0.1 else gen_scalar(rng, kind)
         c = {"enc": enc, "value": v, "length": rng.choice([0, 1, 2, 3, 7, 50, 1000]) if rng.random() < 0.5 else rng.randint(0, 40)}
         if enc == "const" and rng.random() < 0.3 and v is not None:
-            f = {"int": "double", "float": "double", "text": "upper", "bool": "not"}[kind]
+            f = rng.choice(RANDOM_FUNCS[kind])
             if f_applicable(f, [v]):
                 c["f"] = f
         return c
@@ -611,7 +719,7 @@ def random_case(ctx, big=False):
     pool = [gen_scalar(rng, kind) for _ in range(rng.choice([1, 2, 3, 3, 5, 8]))]
     if rng.random() < 0.04 and kind in ("int", "text"):
         # many distinct values: more dictionary entries / runs than fit a byte or a short
-        m = rng.choice([257, 300, 700])
+        m = rng.choice([rng.randint(120, 135), rng.randint(250, 262), 300, 700])
         pool = list(range(-5, m - 5)) if kind == "int" else ["v%d" % i for i in range(m)]
         n = m + rng.randint(0, 50)
         rng.shuffle(pool)
@@ -641,8 +749,8 @@ def random_case(ctx, big=False):
         c["default"] = gen_default(rng, kind, vs)
         if big and kind == "int":
             c["default"] = rng.choice([0.0, 1.5, float(2**53)])
-    if rng.random() < 0.3:
-        f = rng.choice([{"int": "double", "float": "double", "text": "upper", "bool": "not"}[kind], "id"])
+    if rng.random() < 0.35:
+        f = rng.choice(RANDOM_FUNCS[kind] + ("id",))
         if f_applicable(f, vs) and not (enc == "dict" and None in vs and len(vs) >= 2):
             c["f"] = f
     return c
@@ -692,6 +800,15 @@ def run(ctx):
         if not valid_case(c):
             raise InfraError("corpus case is not valid: %r" % (c,))
     evaluate(ctx, [dict(c) for c in CORPUS])
+    nb = 0
+    for batch in _chunks(boundary_cases(), 20):
+        for c in batch:
+            if not valid_case(c):
+                raise InfraError("boundary case is not valid: %r" % (c,))
+        evaluate(ctx, batch)
+        nb += len(batch)
+    ctx.note("boundary_scope", "%d cases with %s and %s distinct values / run lengths / lengths (ints and text) through dictionary, "
+             "RLE, sparse, constant and function columns" % (nb, list(SMALL_BOUNDS), list(LARGE_BOUNDS)))
     ctx.note("rule", "one case = one sequence (or constant value and length) put through one column encoding, "
              "optionally with an element-wise function on the stored values; non-trivial = at least two elements; "
              "distinct by canonical JSON of the case")
@@ -706,6 +823,8 @@ def run(ctx):
     total = 0
     for batch in _chunks(exhaustive_cases(nmax, nmax_map), 4000):
         if ctx.time_left() < 5:
+            if ctx.violations:
+                break  # a failing input is already recorded; shrinking it used the budget
             raise InfraError("time budget exhausted inside the exhaustive scope")
         evaluate(ctx, batch)
         total += len(batch)
